@@ -72,28 +72,38 @@ func ParsePrivateKey(data, password []byte) (*rsa.PrivateKey, string, error) {
 		return k, comment, ErrCorrupted
 	}
 
+	// The check bytes of an encrypted private part read without the right key match once
+	// in 65536 times; what follows is then not a private part either, which says the same
+	// thing as a mismatch: the public half has been read, the private half cannot be.
+	privErr := func(err error) (*rsa.PrivateKey, string, error) {
+		if cipher != noEncryption {
+			return &rsa.PrivateKey{PublicKey: k.PublicKey}, comment, ErrCorrupted
+		}
+		return nil, "", fmt.Errorf("readMPInt: %w", err)
+	}
+
 	k.D, err = readMPInt(r)
 	if err != nil {
-		return nil, "", fmt.Errorf("readMPInt: %w", err)
+		return privErr(err)
 	}
 
 	// qInv
 	_, err = readMPInt(r)
 	if err != nil {
-		return nil, "", fmt.Errorf("readMPInt: %w", err)
+		return privErr(err)
 	}
 
 	// q
 	k.Primes = make([]*big.Int, 2)
 	k.Primes[1], err = readMPInt(r)
 	if err != nil {
-		return nil, "", fmt.Errorf("readMPInt: %w", err)
+		return privErr(err)
 	}
 
 	// p
 	k.Primes[0], err = readMPInt(r)
 	if err != nil {
-		return nil, "", fmt.Errorf("readMPInt: %w", err)
+		return privErr(err)
 	}
 
 	return k, comment, nil
